@@ -168,7 +168,9 @@ Inductive label :=
 | LTick (d : Z)
 | LStoreDel (n : name)               (* environment: storage cleaner *)
 | LStorePut (n : name) (c : cert)    (* environment: another instance stores a bundle *)
-| LEvict (n : name) (c : cert).      (* environment: cache eviction / removal *)
+| LEvict (n : name) (c : cert)       (* environment: cache eviction / removal *)
+| LCacheSet (n : name) (c : cert).   (* environment: the cached certificate of generation [gen c] changes state
+                                        (its OCSP status becomes Revoked, it ages) *)
 
 Definition guard (b : bool) (s : option state) : option state := if b then s else None.
 
@@ -313,6 +315,7 @@ Definition step (s : state) (l : label) : option state :=
   | LStoreDel n => Some (set_store s n None)
   | LStorePut n c => Some (set_store s n (Some c))
   | LEvict n c => Some (set_cache s n (cache_del c (cache s n)))
+  | LCacheSet n c => Some (set_cache s n (map (fun x => if cert_eqb x c then c else x) (cache s n)))
   end.
 
 Fixpoint run (s : state) (ls : list label) : option state :=
@@ -342,12 +345,14 @@ Definition owns_o (p : pc) : option chan :=
 Definition finished (p : pc) : bool := match p with PDone _ | PExit => true | _ => false end.
 
 (** ** macro steps for the lock-step correspondence: the harness holds goroutines at "gates"
-    (DecisionFunc, first read of the name's bundle, Issuer.Issue) and lets everything else run *)
+    (DecisionFunc, the existence check of handshakeMaintenance, first read of the name's bundle,
+    Issuer.Issue) and lets everything else run *)
 Definition at_gate (s : state) (th : thread) : bool :=
   match t_pc th with
   | PGate1 _ | PGate2 _ | PLoad | PObtLoad _
   | PRenGate _ _ _ _ | PRenLoad _ _ _ _ | PRenIssue _ _ _ _ | PRenReload _ _ _ => true
   | PObtain _ _ => is_none (store s (t_name th))
+  | PMaint c => needs_renew c && negb (revoked c)   (* the storage existence check of renewIfNecessary *)
   | _ => false
   end.
 
